@@ -149,7 +149,7 @@ func (sc Script) RunImpl(expected []string) (int, string, string) {
 		}()
 		select {
 		case <-done:
-		case <-time.After(opBudget):
+		case <-time.After(opBudgetNow()):
 			blockedOp = true
 		}
 		if blockedOp {
@@ -162,7 +162,7 @@ func (sc Script) RunImpl(expected []string) (int, string, string) {
 		}
 		want := expected[i]
 		got := ""
-		ok := Eventually(opBudget, func() bool { got = w.Observe(); return got == want })
+		ok := Eventually(opBudgetNow(), func() bool { got = w.Observe(); return got == want })
 		if !ok {
 			return i, got, want
 		}
@@ -295,8 +295,21 @@ func GenRaw(r *hlib.Rng, hevc bool) *RawSpec {
 	return sp
 }
 
-// opBudget: how long an observation may take to reach the expected one (costs nothing when it does)
-const opBudget = 45 * time.Second
+// opBudget: how long an observation may take to reach the expected one (costs nothing when it
+// does).  Generous as long as nothing has failed; once a difference has been CONFIRMED (seen again
+// in a second run of the same script) the tree under test is wrong anyway and the remaining
+// scripts only look for further replays: they wait briefly, and after a handful of findings the
+// rest is not run at all — a failing tree is reported in minutes, not after every watchdog.
+var confirmedFailures int64
+
+func opBudgetNow() time.Duration {
+	if atomic.LoadInt64(&confirmedFailures) > 0 {
+		return 3 * time.Second
+	}
+	return 45 * time.Second
+}
+
+const maxFindingsPerRun = 6
 
 // CatchUpLost counts the scripts in which the stream's demuxer stopped following the publisher
 var CatchUpLost int64
@@ -317,4 +330,139 @@ func expectedAt(e []string, i int) string {
 		i = len(e) - 1
 	}
 	return e[i]
+}
+
+// RunFree executes the script on a fresh stream WITHOUT comparing with the model (used once model
+// and implementation are known to differ on it): every op runs, the consumers drain, and what each
+// consumer was delivered is returned together with the number of packets published before it
+// attached — the input of the specification's own oracles (Lean: dropAligned).
+func (sc Script) RunFree() (names []int, joinedAt, detachedAt map[int]int, delivered map[int][]uint32) {
+	InstallCounters()
+	w := NewWorldSdp(sc.Hevc, sc.Gop, !sc.Hevc && len(sc.Ops)%2 == 1)
+	defer func() {
+		for _, r := range w.Recs {
+			r.Resume()
+		}
+		w.S.Close()
+	}()
+	recs := map[int]*Rec{}
+	joinedAt, detachedAt, delivered = map[int]int{}, map[int]int{}, map[int][]uint32{}
+	published, closed := 0, false
+	for _, o := range sc.Ops {
+		o := o
+		// before a consumer is detached it drains (any execution of the script will do for the
+		// oracle; this one makes "not delivered" mean "dropped for backlog")
+		if o.Code == 'S' {
+			if r := recs[o.Name]; r != nil {
+				r.Resume()
+				w.Quiesce2(2 * time.Second)
+				if _, done := detachedAt[o.Name]; !done {
+					detachedAt[o.Name] = published
+				}
+			}
+		}
+		if o.Code == 'X' && !closed {
+			for n, r := range recs {
+				r.Resume()
+				if _, done := detachedAt[n]; !done {
+					detachedAt[n] = published
+				}
+			}
+			w.Quiesce2(2 * time.Second)
+			closed = true
+		}
+		done := make(chan struct{})
+		go func() {
+			defer close(done)
+			switch o.Code {
+			case 'P':
+				if o.Raw != nil {
+					raw := *o.Raw
+					w.PublishWith(func(uid uint32) *rtp.Packet { return w.stamp(MkRaw(uid, raw, sc.Hevc), o.SameTs) })
+				} else {
+					w.PublishWith(func(uid uint32) *rtp.Packet { return w.stamp(MkPkt(uid, o.Kind, sc.Hevc, o.Extra), o.SameTs) })
+				}
+			case 'J':
+				if _, dup := recs[o.Name]; !dup {
+					r := w.NewRec()
+					r.Name = o.Name
+					r.PanicAt = o.Panic
+					recs[o.Name] = r
+					names = append(names, o.Name)
+					joinedAt[o.Name] = published
+					if closed {
+						detachedAt[o.Name] = published
+					}
+					w.Join(r, o.Gop)
+					if sc.MaxQ > 0 {
+						w.S.VerifSetMaxQLen(r.CID, sc.MaxQ)
+					}
+				}
+			case 'S':
+				if r := recs[o.Name]; r != nil {
+					w.S.StopConsume(r.CID)
+				}
+			case 'X':
+				w.S.Close()
+			case 'T':
+				if r := recs[o.Name]; r != nil {
+					r.Stall()
+				}
+			case 'R':
+				if r := recs[o.Name]; r != nil {
+					r.Resume()
+				}
+			}
+		}()
+		select {
+		case <-done:
+		case <-time.After(10 * time.Second):
+			return
+		}
+		if o.Code == 'P' && !closed {
+			published++
+		}
+		w.Quiesce2(2 * time.Second)
+	}
+	for _, r := range w.Recs {
+		r.Resume()
+	}
+	w.Quiesce2(3 * time.Second)
+	for n, r := range recs {
+		delivered[n] = r.Delivered()
+		if _, done := detachedAt[n]; !done {
+			detachedAt[n] = published
+		}
+		if r.PanicAt != 0 {
+			// a consumer that panics is detached by its own goroutine at a point the script does not
+			// name: it is left out of the alignment judgement
+			detachedAt[n] = joinedAt[n]
+		}
+	}
+	return
+}
+
+// AlignLine renders the driver line of the alignment oracle for what RunFree observed
+func (sc Script) AlignLine(tag string, names []int, joinedAt, detachedAt map[int]int, delivered map[int][]uint32) string {
+	f := strings.Fields(sc.Line(tag))
+	var b strings.Builder
+	fmt.Fprintf(&b, "%s align %s", tag, b01(sc.Hevc))
+	for _, t := range f {
+		if strings.HasPrefix(t, "P:") {
+			b.WriteString(" " + t)
+		}
+	}
+	for _, n := range names {
+		fmt.Fprintf(&b, " C:%d:%d:", joinedAt[n], detachedAt[n])
+		for i, u := range delivered[n] {
+			if i > 0 {
+				b.WriteByte('.')
+			}
+			fmt.Fprintf(&b, "%d", u)
+		}
+		if len(delivered[n]) == 0 {
+			b.WriteByte('.')
+		}
+	}
+	return b.String()
 }
